@@ -88,7 +88,7 @@ def run(tier, seed):
         'samples': [{'name': items[i][0], 'source': items[i][1], 'outcome': events[i]['outcome']} for i in (0, 5, len(edge.SNIPPETS) + 3)],
         'outcome_classes': dict(classes), 'rejected_events': len(rejected), 'states': r.distinct,
     }
-    chk.assumptions = ['per-compilation time limit 90 s', 'sources come from generators and a catalogue, not from the whole grammar']
+    chk.assumptions = ['per-compilation time limit 240 s', 'sources come from generators and a catalogue, not from the whole grammar']
     return chk.finish()
 
 
